@@ -982,7 +982,11 @@ fn resolve_text_macro_usage<T: AsRef<Path>, U: AsRef<Path>>(
     let mut args_str = String::from("");
     let mut actual_args = Vec::new();
     let no_args = args.is_none();
+    let mut args_offset = 0;
     if let Some(args) = args {
+        if let Some(RefNode::Locate(x)) = RefNode::from(&args.nodes.0).into_iter().find(|x| matches!(x, RefNode::Locate(_))) {
+            args_offset = x.offset;
+        }
         args_str.push_str(&get_str((&args.nodes.0).into(), s));
         args_str.push_str(&get_str((&args.nodes.1).into(), s));
         args_str.push_str(&get_str((&args.nodes.2).into(), s));
@@ -1073,14 +1077,47 @@ fn resolve_text_macro_usage<T: AsRef<Path>, U: AsRef<Path>>(
                 text.origin.clone(),
                 new_defines,
             )))
+        } else if let Some(paren) = paren.filter(|x| !x.is_empty()) {
+            // A macro without formals takes no argument list: a parenthesised group behind
+            // its usage is ordinary text and has to survive, also when the macro has no body.
+            restore_paren(&paren, args_offset, path, defines, include_paths, strip_comments, resolve_depth, include_depth)
         } else {
             Ok(None)
         }
     } else if define.is_some() {
-        Ok(None)
+        if no_args {
+            Ok(None)
+        } else {
+            restore_paren(&args_str, args_offset, path, defines, include_paths, strip_comments, resolve_depth, include_depth)
+        }
     } else {
         Err(Error::DefineNotFound(id))
     }
+}
+
+fn restore_paren<T: AsRef<Path>, U: AsRef<Path>>(
+    paren: &str,
+    offset: usize,
+    path: T,
+    defines: &Defines,
+    include_paths: &[U],
+    strip_comments: bool,
+    resolve_depth: usize,
+    include_depth: usize,
+) -> Result<Option<(String, Option<(PathBuf, Range)>, Defines)>, Error> {
+    let (replaced, new_defines) = preprocess_str(
+        paren,
+        path.as_ref(),
+        defines,
+        include_paths,
+        false,
+        strip_comments,
+        resolve_depth,
+        include_depth,
+    )?;
+    // the group is copied from where it is written
+    let origin = (PathBuf::from(path.as_ref()), Range::new(offset, offset + paren.len()));
+    Ok(Some((String::from(replaced.text()), Some(origin), new_defines)))
 }
 
 #[cfg(test)]
